@@ -1132,6 +1132,35 @@ fn drive(seed: u64, tier: &str, parts: &str, emit_all: &mut dyn FnMut(&Value)) {
         }
     }
 
+    // (7) the accepted-but-unwritable values (known findings F3, F4 of C06), on every run:
+    //     connless payloads just over the writers' limit, 0.7 Connect / Token with response token ffffffff
+    //     -- and their neighbours that must round-trip
+    for n in [1389usize, 1390, 1391, 1392, 1393, 1394] {
+        let mut dg = vec![0xffu8; 6];
+        dg.extend((0..n).map(|i| (i % 251) as u8));
+        for h in ["none", "true", "false"] {
+            emit_if(c06, emit_all, &rd_case(6, &dg, h, 2048));
+        }
+    }
+    for n in [1389usize, 1390, 1391] {
+        let mut dg = vec![0x21u8, 1, 2, 3, 4, 5, 6, 7, 8];
+        dg.extend((0..n).map(|i| (i % 251) as u8));
+        emit_if(c06, emit_all, &rd_case(7, &dg, "none", 2048));
+    }
+    for rt in [[0xffu8; 4], [0xff, 0xff, 0xff, 0xfe], [1, 2, 3, 4]] {
+        // Connect(rt), Token(rt) on an authenticated header token; Token(rt) as a 519-byte token request
+        let mut c = vec![0x04u8, 0, 0, 9, 8, 7, 6, 1];
+        c.extend_from_slice(&rt);
+        emit_if(c06, emit_all, &rd_case(7, &c, "none", 2048));
+        let mut t = vec![0x04u8, 0, 0, 9, 8, 7, 6, 5];
+        t.extend_from_slice(&rt);
+        emit_if(c06, emit_all, &rd_case(7, &t, "none", 2048));
+        let mut q = vec![0x04u8, 0, 0, 0xff, 0xff, 0xff, 0xff, 5];
+        q.extend_from_slice(&rt);
+        q.resize(519, 0);
+        emit_if(c06, emit_all, &rd_case(7, &q, "none", 2048));
+    }
+
     // (6) headers: random in-range field tuples and random byte patterns
     for _ in 0..n_hdr {
         let v = if g.rng.gen_bool(0.5) { 6 } else { 7 };
